@@ -76,14 +76,7 @@ theorem LPInv_start
     exact ⟨[], by simp, List.nodup_nil, fun t ht => by simp at ht⟩
   · intro r i
     rw [relSt_updateIndices]
-    simp only [List.mem_append, List.mem_range]
-    constructor
-    · intro h; exact .inr h
-    · rintro (h | h)
-      · by_cases hr : r < (initSt p inp).length
-        · exact (WFSt_initSt p inp).2 _ (relSt_mem _ r hr) i h
-        · rw [relSt_of_ge _ r (Nat.le_of_not_lt hr)] at h; simp at h
-      · exact h
+    simp only [List.mem_range]
   · intro M hM f hf
     have hr : f.rel < p.rels.length := by
       have := lt_of_mem_rows _ f.rel f.args hf
